@@ -151,10 +151,13 @@ func runC01(c *core.Ctx) {
 			depthLimit := []int{3, 10}[r.Intn(2)]
 			exact := r.Intn(2) == 0
 			nrec := 2 + r.Intn(11)
-			o := gen.BookOpts{Recipes: nrec, Basics: 1 + r.Intn(5), MaxDepth: depthLimit - 1, Exact: exact,
+			o := gen.BookOpts{Recipes: nrec, Basics: 1 + r.Intn(5), MaxDepth: depthLimit - 1, Exact: exact, Wide: i%10 == 0,
 				Names: gen.NameOpts{Unicode: true, Spaces: true, Slash: true, Punct: gen.PunctAll}}
 			if depthLimit == 10 {
 				o.MaxDepth = 1 + r.Intn(9)
+			}
+			if o.Wide {
+				o.Basics = 35 + r.Intn(30) // recipes that reach more than 32 distinct elements
 			}
 			b := gen.RandomBook(r, o)
 			longest, cyc := model.Chain(b)
